@@ -4,6 +4,7 @@ mod c01;
 mod c02;
 mod c03;
 mod c04;
+mod c05;
 mod c07;
 mod c08;
 mod c10;
@@ -35,6 +36,7 @@ fn dispatch(id: &str, tier: Option<&str>) {
         "C02" => c02::main(tier),
         "C03" => c03::main(tier),
         "C04" => c04::main(tier),
+        "C05" => c05::main(tier),
         "C07" => c07::main(tier),
         "C08" => c08::main(tier),
         "C10" => c10::main(tier),
